@@ -39,8 +39,8 @@ pub struct GenCfg {
 pub fn small_dims() -> Vec<(u32, Vec<usize>)> {
     vec![
         (6, vec![1, 2, 3, 4]),
-        (3, vec![5, 8, 12, 16, 20, 33, 40]),
-        (1, vec![15, 17, 31, 32, 63, 64, 65, 127, 128, 130]),
+        (3, (5..=40).collect()),
+        (1, vec![15, 16, 17, 31, 32, 33, 47, 48, 63, 64, 65, 96, 100, 127, 128, 129, 130]),
     ]
 }
 
@@ -67,10 +67,10 @@ impl GenCfg {
             split_after: vec![
                 (4, vec![None]),
                 (2, vec![Some(1), Some(2)]),
-                (3, vec![Some(3), Some(4), Some(5), Some(7), Some(10)]),
-                (1, vec![Some(11), Some(20), Some(50)]),
+                (3, (3..=10).map(Some).collect()),
+                (1, (11..=50).map(Some).collect()),
             ],
-            n_trees: vec![(4, vec![None]), (5, vec![Some(1), Some(2), Some(3), Some(4)]), (1, vec![Some(7), Some(12), Some(20)])],
+            n_trees: vec![(4, vec![None]), (5, vec![Some(1), Some(2), Some(3), Some(4)]), (2, (5..=20).map(Some).collect())],
             avail_mem: vec![(8, vec![None]), (1, vec![Some(0), Some(1), Some(4096), Some(3 * 4096), Some(1 << 40), Some(usize::MAX)])],
             abort_pct: 8,
             build_pct: 92,
